@@ -69,11 +69,11 @@ CLAIMED["C13"] = {
 CLAIMED["C01"] = {
     "text": "The lowering of expressions is proved arm by arm against ONE general contract of Exp::linearize (Verus, structural induction: recursive calls are used through the same contract): "
             "the lowering context only grows; at every assignment (all reals) that satisfies what the grown context demands (queued constraints, declared domains, derived range box) the returned linear form "
-            "relaxes the source value in the direction the requirement allows (=, >= or <=). Proved arms: Number, Variable, Add, Sub, Mul, Div, unary minus and Abs (sign-known shortcuts, one-sided rows, exact big-M pair). "
+            "relaxes the source value in the direction the requirement allows (=, >= or <=). Proved arms: Number, Variable, Add, Sub, Mul, Div, unary minus, Abs (sign-known shortcuts, one-sided rows, exact big-M pair) and Min / Max: linearize_extreme as a whole (pruning of dominated operands incl. the proof that it does not change the extreme inside the derived box, one-sided rows, Boolean selectors with big-M rows and the sum-to-one row, sum_exps). "
             "For Abs the emitted rows are also proved complete: for every value of the operand inside its derived range the intended auxiliary values satisfy all rows (a too-small big-M constant fails this). "
             "Supporting contracts proved on the real code: requirement reversal / scaling law, the linear-form algebra over the IndexMap view, expression rebuilding, queueing a constraint / declaring an auxiliary, "
             "and Linearizer::emit_constraint: the emitted row together with what the grown context demands implies the source constraint (requirement chosen from the comparison, constant moved across with its sign). "
-            "NOT decided and listed in the evidence as assumed arms: min/max selection, logic reification and assertion lowering, the model-level constraint loop and domain publication, the witness threading through nested auxiliaries, termination.",
+            "NOT decided and listed in the evidence as assumed arms: logic reification and assertion lowering, the model-level constraint loop and domain publication, the witness threading through nested auxiliaries, termination.",
     "note": "Trusted: prelude/f64_layer.rs (floats as exact extended reals), prelude/smap.rs (IndexMap<String,_> view), prelude/std_stubs.rs. BoundsAnalyzer::bounds_of is used through its contract, proved in U07.fwd. "
             "Rules: format! abstracted to opaque strings (R6), auxiliary counters abstracted (R21), masked arms end in a diverging stub.",
     "technique": "Verus contracts woven into Exp::linearize and its helpers extracted from linearizer.rs on every run; arm masking; ghost semantics oracle spec/semantics.rs",
@@ -83,9 +83,9 @@ CLAIMED["C02"] = {
     "text": "Same units as C01: the general contract's relaxation clause is exactly the objective statement per sub-expression (PreferLower: the linear value can only exceed the source value, so minimising it reaches the source value; "
             "symmetric for PreferHigher; equality for Exact), proved for the affine arms and Abs, together with the requirement reversal law through subtraction, negation and negative scaling and the linear-form algebra "
             "(constant offset carried through merge/scale). The choice of the requirement from the optimisation direction and the offset / coefficient hand-over are proved on statement slices lifted verbatim from Linearizer::linearize (U02.obj). "
-            "NOT decided: that the optimum over the auxiliaries is attained for a whole model (the completeness direction through nested auxiliaries), min/max and logic arms.",
+            "NOT decided: that the optimum over the auxiliaries is attained for a whole model (the completeness direction through nested auxiliaries: big-M constants large enough), logic arms.",
     "note": "As C01. A statement slice is a contiguous run of statements of the real function turned into a function of its free variables; the rest of that function is not in the unit.",
-    "technique": "Verus contracts (relaxes(requirement, linear value, source value)) on Exp::linearize arms and ValueRequirement::{reversed, through_scale}",
+    "technique": "Verus contracts (relaxes(requirement, linear value, source value)) on Exp::linearize arms, linearize_extreme and ValueRequirement::{reversed, through_scale}",
     "design_ref": "DESIGN.md §5 C02",
 }
 
@@ -137,7 +137,7 @@ CLAIMED["C08"] = {
             "every proved arm of Exp::linearize returns a finite linear form or an error, and the exact Abs lowering returns the missing-bounds error instead of a constant when the operand's range is not finite. "
             "The row-name de-duplication loop of Linearizer::linearize (a statement slice lifted verbatim from the function) is proved to leave non-empty names pairwise distinct, to keep the first use of every user-written name, to keep unnamed rows unnamed and to give a renamed row a name no user wrote. "
             "Sortedness / key-set equality of the variable list, presence of every referenced variable, one finite coefficient per variable and the missing-bounds error are additionally checked on the whole real Linearizer::linearize by a BOUNDED search over a family of models (labelled, not counted as proved). "
-            "NOT decided deductively: the used-variable collection and sort (iterator chains), auxiliary-name collision freedom (names are format! strings abstracted to opaque values by rule R6), the min/max and logic arms, termination of the name search.",
+            "NOT decided deductively: the used-variable collection and sort (iterator chains), auxiliary-name collision freedom (names are format! strings abstracted to opaque values by rule R6), the logic arms, termination of the name search.",
     "note": "Trusted: prelude/f64_layer.rs, prelude/smap.rs, prelude/std_stubs.rs. BoundsAnalyzer::bounds_of is used through its contract (proved in U07.fwd).",
     "technique": "Verus contracts on extracted extract_coeffs / add_constraint / declare_variable / Exp::linearize arms (finite-or-error postcondition) and loop invariants on the name de-duplication slice of Linearizer::linearize; bounded executable-postcondition search on the whole function",
     "design_ref": "DESIGN.md §5 C08",
